@@ -247,6 +247,10 @@ pub const LITTER_NAMES: [&str; 16] = [
     "{dir}/{name}.tmp~",
 ];
 
+fn is_zero_u8(v: &u8) -> bool {
+    *v == 0
+}
+
 #[derive(Clone, Debug, PartialEq, Serialize, Deserialize)]
 pub struct IoOp {
     pub kind: Kind,
@@ -264,6 +268,10 @@ pub struct IoOp {
     /// debris next to the target, created before the call
     #[serde(default, skip_serializing_if = "Vec::is_empty")]
     pub litter: Vec<Litter>,
+    /// the process's current directory during the call: 0 = the run directory, 1 = its
+    /// sub-directory `cwd-b` (single-caller runs only; relative destinations follow it)
+    #[serde(default, skip_serializing_if = "is_zero_u8")]
+    pub cwd: u8,
     /// crash: the call runs in a forked child that is killed right before its k-th tracked system
     /// call; only what reached the file system survives. No verdict for this call itself - the
     /// following operations of the run meet what it left behind.
@@ -622,8 +630,12 @@ pub fn gen_run(verif_seed: u64, index: u64) -> IoRun {
             pad_to,
             rlimit,
             litter: Vec::new(),
+            cwd: 0,
             crash_at: None,
         };
+        if matches!(op.target, Target::Relative(_)) && rng.chance(1, 3) {
+            op.cwd = 1;
+        }
         // related operations: the same export again, or a close relative of an earlier one
         // (what a watch loop, a batch job or a retry does) - where memos and caches live
         if sw.related && !ops.is_empty() && rng.chance(2, 5) {
@@ -682,6 +694,10 @@ pub fn gen_run(verif_seed: u64, index: u64) -> IoRun {
                 }
                 // same export, other path
                 _ => op.target = fresh.target.clone(),
+            }
+            if matches!(op.target, Target::Relative(_)) && rng.chance(1, 2) {
+                // the same relative name from another working directory is another file
+                op.cwd = 1 - op.cwd.min(1);
             }
         }
         if sw.litter && !op.target.kernel_fault() && rng.chance(1, 4) {
@@ -1084,6 +1100,12 @@ pub fn exec_op(dir: &Path, idx: usize, op: &IoOp, stats: &mut Stats, pre: Option
     }
 
     // 3. pre-state at the target
+    if pre.is_none() {
+        // single-caller run: this call's working directory (relative destinations follow it)
+        let wd = if op.cwd % 2 == 1 { dir.join("cwd-b") } else { dir.to_path_buf() };
+        let _ = std::fs::create_dir_all(&wd);
+        let _ = std::env::set_current_dir(&wd);
+    }
     let path = resolve_path(dir, &op.target);
     match op.target {
         Target::IsDir => {
@@ -1243,7 +1265,8 @@ pub fn exec_op(dir: &Path, idx: usize, op: &IoOp, stats: &mut Stats, pre: Option
     if let (Some(k), None) = (op.crash_at, pre) {
         // A separate process image (not a fork of this one: a forked copy would inherit locks and
         // "already started" flags of helper threads that do not exist in it).
-        let spec = serde_json::json!({"op": op, "path": path, "kill_at": k, "cwd": dir.to_string_lossy()});
+        let here = std::env::current_dir().map(|p| p.to_string_lossy().to_string()).unwrap_or_else(|_| dir.to_string_lossy().to_string());
+        let spec = serde_json::json!({"op": op, "path": path, "kill_at": k, "cwd": here});
         let code = match run_crash_child(&spec.to_string()) {
             Ok(c) => c,
             Err(why) => return skip(rep, why, stats),
